@@ -120,8 +120,25 @@ func tcpScenario(c tcfg) *mcx.Scenario {
 					}
 					return true
 				}
+				laterCSM := 0
 				for round := 0; round < 200; round++ {
 					vrt.Quiesce("relay: settle")
+					// a further CSM (capabilities are cumulative, RFC 8323 5.3: one that does not repeat Block-Wise-Transfer
+					// revokes nothing) may arrive between two frames of the transfer
+					if round > 0 && !done && laterCSM < 1 && vrt.Choose(2, []int8{0, 1}) == 1 {
+						laterCSM++
+						bo := make([]byte, 4)
+						n, _ := message.EncodeUint32(bo, 2048)
+						m := message.Message{Code: codes.CSM, Options: message.Options{{ID: message.TCPMaxMessageSize, Value: bo[:n]}}}
+						if vrt.Choose(2, nil) == 0 {
+							hist = append(hist, "CSM(no block-wise option)>A")
+							A.Inject(m)
+						} else {
+							hist = append(hist, "CSM(no block-wise option)>B")
+							B.Inject(m)
+						}
+						vrt.Quiesce("relay: later CSM consumed")
+					}
 					a := move(A, &sentA, B, "A>B")
 					b := move(B, &sentB, A, "B>A")
 					if !a && !b {
